@@ -1,8 +1,8 @@
-import Pm.Dev2
+import Pm.Dev2Login
 /-! descriptor / child-process bookkeeping of the connection layer (`device.c:_connect/_disconnect/_reconnect/
     _handle_ready_device`, `device_tcp.c`, `device_pipe.c`) on the mirror `Pm/Dev2.lean`: helper lemmas for
     `Props/C20` (no resource leaks) and `Props/C07` (no device behaviour can crash the daemon). -/
-namespace Pm.Dev2
+namespace Pm.Dev2.Fd
 
 /-! ### the four fields the bookkeeping is about, and what script statements may touch -/
 
@@ -205,7 +205,7 @@ def FdInv (d : Dev) : Prop := d.fd = none ↔ d.conn = 0
 
 /-- a child pid is recorded exactly for a coprocess device that is connected; a coprocess device is never
     `DEV_CONNECTING` (the third conjunct is what makes the first two inductive, see
-    `childInv_two_conjuncts_not_inductive` below) -/
+    `C20_child_inv_two_conjuncts_counterexample` in `Props/C20`) -/
 def ChildInv (d : Dev) : Prop :=
   (d.cpid.isSome = true → d.isPipe = true ∧ d.conn ≠ 0) ∧
   (d.isPipe = true → d.conn ≠ 0 → d.cpid.isSome = true) ∧
@@ -1078,6 +1078,44 @@ theorem subOf_infix (d : Dev) (i : Int) (s : Bytes) (h : subOf d i = some s) :
           · simp; omega
     · simp at h
 
+/-! the text `dbg_memstr` produces fits the buffer it allocates (`4*len+1` with the terminator) -/
+theorem str_r : (str "\\r").length = 2 := by decide +kernel
+theorem str_n : (str "\\n").length = 2 := by decide +kernel
+theorem str_t : (str "\\t").length = 2 := by decide +kernel
+
+theorem octal_len (b : UInt8) : (octal b.toNat).length ≤ 3 := by
+  have h : b.toNat < 256 := UInt8.toNat_lt b
+  unfold octal
+  rw [List.length_map, Nat.length_toDigits_le_iff (by decide) (by decide)]
+  omega
+
+theorem memstr_cell (b : UInt8) :
+    (if b == 13 then str "\\r" else if b == 10 then str "\\n" else if b == 9 then str "\\t"
+     else if isPrint b then [b]
+     else
+      let ds := octal b.toNat
+      let ds := List.replicate (3 - ds.length) (48 : UInt8) ++ ds
+      (92 : UInt8) :: ds).length ≤ 4 := by
+  have := octal_len b
+  split
+  · simp [str_r]
+  · split
+    · simp [str_n]
+    · split
+      · simp [str_t]
+      · split
+        · simp
+        · simp; omega
+
+theorem memstr_length (bs : Bytes) : (memstr bs).length ≤ 4 * bs.length := by
+  induction bs with
+  | nil => simp [memstr]
+  | cons b r ih =>
+    unfold memstr at ih ⊢
+    rw [List.flatMap_cons, List.length_append, List.length_cons]
+    have := memstr_cell b
+    omega
+
 /-- when the regex offsets lie inside the subject (what `regexec` guarantees) the copy has exactly `eo - so` bytes -/
 theorem subOf_length (d : Dev) (i so eo : Int) (subj : Bytes) (hr : d.xmResult = true) (hi : 0 ≤ i)
     (ho : d.xmOffs[i.toNat]? = some (so, eo)) (hs : d.xmStr = some subj) (h0 : 0 ≤ so)
@@ -1224,26 +1262,11 @@ def exPipeConnecting : Dev := { exDev with conn := 1, fd := some 3000, isPipe :=
 def exEnv : Env :=
   { now := 0, revents := 4, sockets := [2001], connects := [1], soerrs := [], read := none, writeOk := true,
     pairs := [3002], pids := [5001] }
+/-- the same, but the reconnect's `connect` fails at once -/
+def exEnvFail : Env := { exEnv with connects := [2] }
 /-- a pass in which the descriptor is writable and `SO_ERROR` is ECONNREFUSED -/
 def exEnvRefused : Env :=
   { now := 0, revents := 2, sockets := [], connects := [], soerrs := [111], read := none, writeOk := true }
 
-#print axioms postPoll_moves
-#print axioms Moves.keeps_all
-#print axioms postPoll_stable
-#print axioms fdRun_count
-#print axioms fdRun_close_held
-#print axioms kidRun_count
-#print axioms kidRun_kill_live
-#print axioms kidRun_wait_signalled
-#print axioms memstrOverflows_false
-#print axioms onTimeout_eq_failAll
-#print axioms stmtExpect_noAbort
-#print axioms subOf_infix
-#print axioms subOf_length
-#print axioms connectOne_contract
-#print axioms finishConnectOne_fdInv
-#print axioms handleReady_keeps_dev
-#print axioms onRun_moves
 
-end Pm.Dev2
+end Pm.Dev2.Fd
